@@ -318,3 +318,37 @@ package keeper
 //@   loop 4 invariant forall i uint64 :: i >= $i ==> BatchInfos[(bridgeId, i)] == None
 //@   loop 4 invariant forall t int :: $i0 < t && t < len(bs) ==> (forall i uint64 :: BatchInfos[(bs[t].BridgeId, i)] == None)
 //@   assigns \everything
+
+// ---- queries named by the properties (read-only views of the state the handlers maintain) -------------------------
+
+//@ func (Querier) Claimed
+//@   ensures err == nil ==> len(req.WithdrawalHash) == 32 && (ret0.Claimed <==> ProvenWithdrawals[(req.BridgeId, req.WithdrawalHash)] != None)   // C02: claimed_exactly_the_recorded_claims
+//@   ensures len(req.WithdrawalHash) == 32 ==> err == nil                                                                                      // C02: answers_every_well_formed_query
+//@   assigns \nothing
+
+//@ func (Querier) NextL1Sequence
+//@   ensures err == nil && ret0.NextL1Sequence == nextOr1(NextL1Sequences[req.BridgeId])                                                       // C10: next_sequence_query
+//@   assigns \nothing
+
+//@ func (Querier) LastFinalizedOutput
+//@   let b := req.BridgeId
+//@   let cfg := val(BridgeConfigs[b])
+//@   ensures err == nil && ret0.OutputIndex != 0 ==> OutputProposals[(b, ret0.OutputIndex)] == Some(ret0.OutputProposal) && isFinal(now, ret0.OutputProposal.L1BlockTime, cfg.FinalizationPeriod)   // C05: names_a_final_output
+//@   ensures err == nil ==> forall j uint64 :: j > ret0.OutputIndex && OutputProposals[(b, j)] != None ==> !isFinal(now, val(OutputProposals[(b, j)]).L1BlockTime, cfg.FinalizationPeriod)   // C05: names_the_highest_final_index
+//@   assigns \nothing
+
+//@ func (Querier) OutputProposal
+//@   ensures err == nil ==> OutputProposals[(req.BridgeId, req.OutputIndex)] == Some(ret0.OutputProposal) && ret0.BridgeId == req.BridgeId && ret0.OutputIndex == req.OutputIndex   // C11: output_query
+//@   assigns \nothing
+
+//@ func (Querier) TokenPairByL1Denom
+//@   ensures err == nil && ret0.TokenPair.L1Denom == req.L1Denom && ret0.TokenPair.L2Denom == l2denom(req.BridgeId, req.L1Denom)             // C10,C17: derived_l2_denom
+//@   assigns \nothing
+
+//@ func (Querier) TokenPairByL2Denom
+//@   ensures err == nil ==> TokenPairs[(req.BridgeId, req.L2Denom)] == Some(ret0.TokenPair.L1Denom) && ret0.TokenPair.L2Denom == req.L2Denom   // C10: recorded_pair
+//@   assigns \nothing
+
+//@ func (Querier) Bridge
+//@   ensures err == nil ==> BridgeConfigs[req.BridgeId] == Some(ret0.BridgeConfig) && ret0.BridgeId == req.BridgeId                            // C12: config_query
+//@   assigns \nothing
